@@ -43,6 +43,11 @@ objs=[u*v*dx(degree=6)]'''),
     _c("c12_p3_gll_warped", '''
 m=mesh("triangle"); V=FunctionSpace(m,el("P","triangle",3,lagrange_variant=basix.LagrangeVariant.gll_warped)); u,v=TrialFunction(V),TestFunction(V)
 objs=[u*v*dx(degree=6)]'''),
+    # one kernel needing the same reference-geometry table for two cell types (facet integral coupled to a codimension-1 mesh)
+    _c("c12_mixed_dimensional_geometry_tables", '''
+mt=mesh("triangle"); mi=mesh("interval",1,2); V=space(mt,"P",2); W=space(mi,"P",1); u=TrialFunction(V); q=TestFunction(W); f=Coefficient(V); g=Coefficient(W)
+n=FacetNormal(mt)
+objs=[CellVolume(mt)*CellVolume(mi)*inner(f*g*grad(u), n*q)*Measure("ds", domain=mt), Circumradius(mt)*CellVolume(mi)*u*q*Measure("ds", domain=mt)]'''),
     _c("c12_expression_several_coefficient_spaces", '''
 m=mesh("triangle"); f=Coefficient(space(m,"P",2)); g=Coefficient(space(m,"P",1)); h=Coefficient(space(m,"DP",0)); k=Constant(m); k2=Constant(m,shape=(2,))
 objs=[(f*g + grad(f)[0]*h + k, np.array([[0.25,0.25],[0.5,0.125]])), (k2*h*g + grad(g)*k, np.array([[0.125,0.25]]))]'''),
